@@ -21,6 +21,13 @@ later call is seen at that later call.
 
 The history ends at the first report (later steps would only echo it).
 
+On the pinned tree: changed-by-failed-add-O/U-TypeError = DESIGN 7 #4, add-O/U-NotUniqueError = #24,
+add-H-InconsistencyError/VersionError/AssertionError = #17, add-<RT>-VersionError/FormatError with the version
+unknown = #22 #23, add-S-* with the version unknown = #23 (queued line fails when the S line decides the version),
+rm/disconnect/rmline-KeyError = echo of #20 (two lines under one ID), foreign-exception = #4 #7 #10 #11;
+add-L/E/G-NotUniqueError with an explicit version = a line that mentions a non-segment identifier as a segment
+is rejected half-way (rejected line stays in the segment's collections; not in DESIGN 7).
+
 NOT CHECKED:
   * identity of line objects (a failed call that swaps a line for an equal copy is not noticed).
   * the content of the line queue while the version is unknown (no public accessor).
